@@ -286,7 +286,7 @@ def run(ck, ctx):
                   f"{len(sites)} stage call site(s), {len(stage)} stage effect(s), {len(store)} store effect(s)",
                   construct="store_f: stage / store order")
         ck.floor("R17.4", n_inv, 6, "storing-wrapper invocations with effects")
-        hs = [e for e in CG.effects if e.kind == "except-handler" and any(CG.in_decorators(f) for _s, f in e.chain)]
+        hs = [e for e in CG.effects if e.kind == "except-handler" and e.chain and CG.in_decorators(e.chain[-1][1])]
         ck.ob("R17.4", "the storing wrapper has no exception handler", not hs, hs[0].node if hs else table,
               "nss_result_store.store_f", f"{len(hs)} handler(s)")
     ck.guard(r174, "R17.4")
@@ -337,6 +337,27 @@ def run(ck, ctx):
     # ---------------------------------------------------------------- R17.5 failure
     def r175():
         hs = [e for e in CG.effects if e.kind == "except-handler"]
+        # a handler matters here if what it guards stores something or writes a file: catching a failure there can skip
+        # a store, or continue after half of one.  A handler around a plain computation (an EAFP fallback that
+        # computes the same value another way) can neither skip nor repeat a store.
+        outputs = [x for x in CG.effects if x.kind in ("mcall-mutate", "io-write") or
+                   (x.kind == "write" and x.data.get("how", "").startswith(("subscript", "aug")) and touches_table(x))]
+
+        def guards_output(e):
+            rng = e.data.get("body_lines")
+            if not rng:
+                return True
+            k = len(e.chain)
+            for x in outputs:
+                if x.chain[:k] != e.chain:
+                    continue
+                site = x.chain[k][0] if len(x.chain) > k else x.site
+                if site and site[0] == e.site[0] and rng[0] <= site[1] <= rng[1]:
+                    return True
+            return False
+        relevant = [e for e in hs if guards_output(e)]
+        ck.info["handlers_around_plain_computations"] = len(hs) - len(relevant)
+        hs = relevant
         for e in hs:
             f = e.data.get("func")
             ck.ob("R17.5", f"no handler swallows a stage failure [{f} at {e.where()}]", bool(e.data.get("reraises")),
